@@ -354,6 +354,9 @@ VARIANTS = {
     'single': dict(),
     # temperature-dependent coolant + parameter-update tolerance: the tracker state must not depend on the history
     # of the input's shared material object
+    # user power that is renormalised / scaled (in place, on the arrays the CSV reader returned)
+    'power_scaled': dict(scaling=0.9),
+    'power_normalised': dict(total_power=6543.21, scaling=1.1),
     'tracker_sodium': dict(coolant='sodium', setup_extra='    param_update_tol = 0.02\n'),
     'tracker_sodium_unrodded': dict(coolant='sodium', setup_extra='    param_update_tol = 0.02\n',
                                     asms={'a1': dict(unrodded=[('lower', 0.0, 0.3, 'simple'), ('upper', 0.8, 1.0, '6node')])}),
@@ -477,11 +480,77 @@ def serial_parallel():
         shutil.rmtree(wd, ignore_errors=True)
 
 
+_MUT = {'append', 'extend', 'insert', 'remove', 'pop', 'clear', 'update', 'setdefault', 'add', 'discard', 'popitem',
+        'sort', 'reverse'}
+
+
+def module_state():
+    """frame condition on process-level state: no dassh function keeps results between calls - no memoisation
+    decorator, no `global` statement, no store into / mutator call on a module-level container. (State that outlives
+    a Reactor is what makes a second construction, or the next time point of a serial run, differ from a fresh one.)"""
+    import ast
+    import glob
+    root = os.path.join(_repo(), 'dassh')
+    out = {}
+    for f in sorted(glob.glob(os.path.join(root, '**', '*.py'), recursive=True)):
+        mod = os.path.relpath(f, _repo())[:-3].replace(os.sep, '.')
+        finds = []
+        try:
+            tree = ast.parse(open(f).read())
+        except SyntaxError as e:
+            out[mod] = [f'cannot parse: {e}']
+            continue
+        modlevel = set()
+        for n in tree.body:
+            tgs = n.targets if isinstance(n, ast.Assign) else ([n.target] if isinstance(n, ast.AnnAssign) else [])
+            for tg in tgs:
+                v = n.value
+                if isinstance(tg, ast.Name) and v is not None and (
+                        isinstance(v, (ast.Dict, ast.List, ast.Set, ast.ListComp, ast.DictComp, ast.SetComp))
+                        or (isinstance(v, ast.Call) and getattr(v.func, 'id', getattr(v.func, 'attr', '')) in
+                            ('dict', 'list', 'set', 'defaultdict', 'OrderedDict', 'deque', 'Counter'))):
+                    modlevel.add(tg.id)
+        for fn in ast.walk(tree):
+            if not isinstance(fn, (ast.FunctionDef, ast.AsyncFunctionDef)):
+                continue
+            local = {a.arg for a in fn.args.args + fn.args.kwonlyargs}
+            for n in ast.walk(fn):
+                if isinstance(n, ast.Assign):
+                    local |= {t.id for t in n.targets if isinstance(t, ast.Name)}
+            for d in fn.decorator_list:
+                txt = ast.unparse(d)
+                if 'cache' in txt.lower() or 'memo' in txt.lower():
+                    finds.append(f'{fn.name} (line {fn.lineno}): memoising decorator @{txt}')
+            for n in ast.walk(fn):
+                if isinstance(n, ast.Global):
+                    finds.append(f'{fn.name} (line {n.lineno}): global {", ".join(n.names)}')
+                tg = n.targets[0] if isinstance(n, ast.Assign) else (n.target if isinstance(n, ast.AugAssign) else None)
+                recv = None
+                if tg is not None and isinstance(tg, (ast.Subscript, ast.Attribute)):
+                    recv, what = tg, 'store into'
+                elif isinstance(n, ast.Call) and isinstance(n.func, ast.Attribute) and n.func.attr in _MUT:
+                    recv, what = n.func.value, f'.{n.func.attr}() on'
+                if recv is not None:
+                    b = recv
+                    while isinstance(b, (ast.Subscript, ast.Attribute)):
+                        b = b.value
+                    if isinstance(b, ast.Name) and b.id in modlevel and b.id not in local:
+                        finds.append(f'{fn.name} (line {n.lineno}): {what} module-level container {b.id}')
+        out[mod] = finds
+    return out
+
+
 def extra_checks(tier, seed):
     import multiprocessing as mp
     t0 = time.time()
     an, visited = static_frames()
     results = []
+    for mod, finds in module_state().items():
+        results.append(dict(name=f'frame.no_process_level_state[{mod}]', status='refuted' if finds else 'proved',
+                            backend='frame-analyser', seconds=0.0, detail='; '.join(finds)[:600],
+                            witness=dict(values=dict(module=mod)) if finds else None,
+                            replay=dict(reproduced=False, point=dict(values=dict(module=mod)), native='; '.join(finds)[:600])
+                            if finds else None))
     by_func = {}
     for f in an.findings.values():
         by_func.setdefault(f.func, []).append(f)
